@@ -120,6 +120,11 @@ fn node_val(b: SegBits, ni: usize) -> Option<u8> {
 /// set_feat / get_feat / feat_match on one segment, one feature, one polarity
 fn check_feat(b: SegBits, fi: usize, pos: bool) -> Result<(), (String, String)> {
     let (name, ni, mask) = FEATS[fi];
+    check_mask(b, name, ni, mask, pos)
+}
+
+/// the same laws for an arbitrary bitmask of features of one node (`feat` is documented as "a bitmask of the feature values to set")
+fn check_mask(b: SegBits, name: &str, ni: usize, mask: u8, pos: bool) -> Result<(), (String, String)> {
     let nk = node_kind(ni);
     let s0 = seg_of(b);
     let before = node_val(b, ni);
@@ -160,7 +165,7 @@ fn check_feat(b: SegBits, fi: usize, pos: bool) -> Result<(), (String, String)> 
 
 pub fn run() -> i32 {
     let mut r = Report::new("C18");
-    r.rule = "every Some(x) place, x in 0..=65535, and None x 4 sub-nodes x every in-range value and None (set/get/frame/consistency/well-formedness); every place x 12 place features x 2 polarities and every byte x 14 root/manner/laryngeal features x 2 (set_feat/get_feat/feat_match/frame); every byte through set_node/get_node of root, manner, laryngeal; BFS closure of encodings reachable from None through the four setters. Non-trivial = the call changed the encoding.".into();
+    r.rule = "every Some(x) place, x in 0..=65535, and None x 4 sub-nodes x every in-range value and None (set/get/frame/consistency/well-formedness); every place x 12 place features x 2 polarities and every byte x 14 root/manner/laryngeal features x 2 (set_feat/get_feat/feat_match/frame); every byte through set_node/get_node of root, manner, laryngeal; set_feat/get_feat/feat_match with every mask of two or more defined feature bits of every node on every stored value of that node; BFS closure of encodings reachable from None through the four setters. Non-trivial = the call changed the encoding.".into();
     r.assumptions.push("sub-node values are in range (the setters debug_assert that)".into());
     // ---- box 1: place setters
     let vals: Vec<Vec<Option<u8>>> = (0..4).map(|n| { let mut v: Vec<Option<u8>> = vec![None]; v.extend((0..=WIDTH[n] as u8).map(Some)); v }).collect();
@@ -236,6 +241,33 @@ pub fn run() -> i32 {
         }
     }
     r.boxes.push(json!({"box": "root/manner/laryngeal bytes", "calls": t3.evals, "calls_changing_segment": t3.changed}));
+    // ---- box 5: multi-bit masks: every node, every stored value of that node, every non-empty mask over the node's defined feature bits, both polarities
+    let mut t5 = Acc { evals: 0, changed: 0, states: BTreeSet::new(), viols: vec![] };
+    for ni in 0..7 {
+        let width: u8 = FEATS.iter().filter(|f| f.1 == ni).fold(0u8, |m, f| m | f.2);
+        let values: Vec<Option<u8>> = (0..=255u8).filter(|v| v & !width == 0).map(Some).chain(if ni >= 3 { vec![None] } else { vec![] }).collect();
+        for v in &values {
+            // the other place sub-nodes present with payload, so that frame violations are visible
+            let base = (0b101u8, 0x80u8, 0b100u8, Some(0xF000u16 | 0x0AAA));
+            let mut s = seg_of(base);
+            if ni < 3 { s.set_node(node_kind(ni), *v); } else { s.set_node(node_kind(ni), *v); }
+            let b = bits(&s);
+            for mask in 1..=255u8 {
+                if mask & !width != 0 || mask.count_ones() < 2 { continue; }
+                for pos in [true, false] {
+                    t5.evals += 1;
+                    let name = format!("node{}-mask{:#b}", ni, mask);
+                    match guarded(1_000_000, || check_mask(b, &name, ni, mask, pos)) {
+                        Out::Ok(Ok(())) => { let mut s = seg_of(b); s.set_feat(node_kind(ni), mask, pos); if bits(&s) != b { t5.changed += 1; } }
+                        Out::Ok(Err((key, desc))) => t5.viols.push(Viol { key, desc, case: json!({"kind": "mask", "seg": [b.0, b.1, b.2, b.3], "node": ni, "mask": mask, "pos": pos}) }),
+                        other => t5.viols.push(Viol { key: format!("seg|crash|{}", other.crash_sig().unwrap()), desc: other.crash_desc().unwrap(), case: json!({"kind": "mask", "seg": [b.0, b.1, b.2, b.3], "node": ni, "mask": mask, "pos": pos}) }),
+                    }
+                }
+            }
+        }
+    }
+    r.boxes.push(json!({"box": "multi-bit feature masks (all nodes x all stored values x all masks of >= 2 defined bits x 2 polarities)", "calls": t5.evals, "calls_changing_segment": t5.changed}));
+    r.guard(t5.changed > 1000, "multi-bit masks: more than 1000 calls change the segment");
     // ---- box 4: reachability closure from None through the setters (explicit-state BFS)
     let mut seen: BTreeSet<Option<u16>> = BTreeSet::new();
     let mut q = VecDeque::new();
@@ -259,12 +291,12 @@ pub fn run() -> i32 {
     r.boxes.push(json!({"box": "closure from None", "reachable_encodings": seen.len(), "transitions": trans, "ill_formed": bad}));
     r.guard(seen.len() > 1000, "closure reached > 1000 encodings");
     r.guard(total.changed > 100_000 && t2.changed > 100_000, "setters changed the encoding in > 100k calls");
-    r.evaluations = total.evals + t2.evals + t3.evals;
-    r.transitions = total.evals + t2.evals + t3.evals + trans;
+    r.evaluations = total.evals + t2.evals + t3.evals + t5.evals;
+    r.transitions = total.evals + t2.evals + t3.evals + t5.evals + trans;
     r.validated = r.evaluations;
     r.nontrivial = total.changed + t2.changed + t3.changed;
     r.states_count_override = Some(total.states.len() as u64 + seen.len() as u64);
-    for v in total.viols.into_iter().chain(t2.viols).chain(t3.viols) { r.viol(v); }
+    for v in total.viols.into_iter().chain(t2.viols).chain(t3.viols).chain(t5.viols) { r.viol(v); }
     r.sample(json!({"call": "set_dorsal(Some(0b001000)) on None", "result": format!("{:?}", { let mut p = mk_place(None); p.set_dorsal(Some(8)); *p })}));
     r.sample(json!({"call": "set_labial(None) on Some(0x8400)", "result": format!("{:?}", { let mut p = mk_place(Some(0x8400)); p.set_labial(None); *p })}));
     r.sample(json!({"call": "set_feat(Dorsal, high, +) on place None", "result": format!("{:?}", { let mut s = mk_seg(5, 0, 4, None); s.set_feat(NodeKind::Dorsal, 8, true); *s.place })}));
@@ -289,6 +321,15 @@ pub fn replay(case: &Value) -> Result<String, String> {
             let fi = case["feat"].as_u64().unwrap() as usize;
             let pos = case["pos"].as_bool().unwrap();
             match guarded(1_000_000, || check_feat(b, fi, pos)) {
+                Out::Ok(Ok(())) => Ok("feature laws hold".into()),
+                Out::Ok(Err((k, d))) => Err(format!("{} :: {}", k, d)),
+                o => Err(o.crash_desc().unwrap()),
+            }
+        }
+        Some("mask") => {
+            let a = case["seg"].as_array().ok_or("bad case")?;
+            let b = (a[0].as_u64().unwrap() as u8, a[1].as_u64().unwrap() as u8, a[2].as_u64().unwrap() as u8, a[3].as_u64().map(|v| v as u16));
+            match guarded(1_000_000, || check_mask(b, "mask", case["node"].as_u64().unwrap() as usize, case["mask"].as_u64().unwrap() as u8, case["pos"].as_bool().unwrap())) {
                 Out::Ok(Ok(())) => Ok("feature laws hold".into()),
                 Out::Ok(Err((k, d))) => Err(format!("{} :: {}", k, d)),
                 o => Err(o.crash_desc().unwrap()),
